@@ -137,8 +137,15 @@ def build(pid, cfg, repo, race=False, fuzz=False):
         cmd.append("-fuzz=Fuzz")  # coverage instrumentation for native fuzzing
     cmd.append("./" + cfg["pkg"] + "/")
     t0 = time.time()
-    p = subprocess.run(cmd, cwd=os.path.join(repo, cfg["module"]), env=go_env(),
-                       stdout=subprocess.PIPE, stderr=subprocess.STDOUT, text=True)
+    for attempt in range(3):
+        p = subprocess.run(cmd, cwd=os.path.join(repo, cfg["module"]), env=go_env(),
+                           stdout=subprocess.PIPE, stderr=subprocess.STDOUT, text=True)
+        # a build that dies because somebody emptied the shared Go build cache under it
+        # (observed on this machine) is simply repeated
+        if p.returncode != 0 and "/go-build/" in p.stdout and ("no such file or directory" in p.stdout or "cannot open file" in p.stdout):
+            time.sleep(3)
+            continue
+        break
     if p.returncode != 0:
         log("BUILD FAILED (%s):\n%s" % (" ".join(cmd), p.stdout[-6000:]))
         return None
